@@ -3659,6 +3659,8 @@ func (e *ExpressionEmitter) emitExpression(handle ir.ExpressionHandle) (uint32, 
 		id, err = e.emitAs(kind)
 	case ir.ExprArrayLength:
 		id, err = e.emitArrayLength(kind)
+	case ir.ExprRelational:
+		id, err = e.emitRelational(kind)
 	case ir.ExprSubgroupBallotResult:
 		return e.emitSubgroupResultRef(handle)
 	case ir.ExprSubgroupOperationResult:
@@ -5297,6 +5299,58 @@ func (e *ExpressionEmitter) dereferencePointerType(res ir.TypeResolution) (uint3
 }
 
 // emitUnary emits a unary operation.
+// emitRelational emits the relational builtins all / any (OpAll / OpAny on
+// boolean vectors; the identity on a scalar bool) and isNan / isInf.
+func (e *ExpressionEmitter) emitRelational(rel ir.ExprRelational) (uint32, error) {
+	argID, err := e.emitExpression(rel.Argument)
+	if err != nil {
+		return 0, err
+	}
+	argType, err := ir.ResolveExpressionType(e.backend.module, e.function, rel.Argument)
+	if err != nil {
+		return 0, fmt.Errorf("relational argument type: %w", err)
+	}
+	inner := argType.Value
+	if argType.Handle != nil {
+		inner = e.backend.module.Types[*argType.Handle].Inner
+	}
+	var size ir.VectorSize
+	switch t := inner.(type) {
+	case ir.ScalarType:
+	case ir.VectorType:
+		size = t.Size
+	default:
+		return 0, fmt.Errorf("relational function on non-scalar, non-vector type: %T", t)
+	}
+	boolType, err := e.backend.emitScalarType(ir.ScalarType{Kind: ir.ScalarBool, Width: 1})
+	if err != nil {
+		return 0, err
+	}
+	switch rel.Fun {
+	case ir.RelationalAll, ir.RelationalAny:
+		if size == 0 {
+			return argID, nil
+		}
+		opcode := OpAll
+		if rel.Fun == ir.RelationalAny {
+			opcode = OpAny
+		}
+		return e.backend.builder.AddUnaryOp(opcode, boolType, argID), nil
+	case ir.RelationalIsNan, ir.RelationalIsInf:
+		resultType := boolType
+		if size != 0 {
+			resultType = e.backend.emitVectorType(boolType, uint32(size))
+		}
+		opcode := OpIsNan
+		if rel.Fun == ir.RelationalIsInf {
+			opcode = OpIsInf
+		}
+		return e.backend.builder.AddUnaryOp(opcode, resultType, argID), nil
+	default:
+		return 0, fmt.Errorf("unsupported relational function: %v", rel.Fun)
+	}
+}
+
 func (e *ExpressionEmitter) emitUnary(unary ir.ExprUnary) (uint32, error) {
 	operandID, err := e.emitExpression(unary.Expr)
 	if err != nil {
